@@ -13,7 +13,7 @@
 //!
 //! usage: c14 exh <subject> <maxlen> <shard> <nshards> <seed> <ncases> <report-file>
 //!        c14 rnd <subject> <maxops> <shard> <nshards> <seed> <ncases> <report-file>
-//!        c14 one <subject> exh|rnd <maxlen> <seed> <case-id> <plan>      (replay; plan = every|none|<bitmask>)
+//!        c14 one <subject> <case-id> [plan]      (replay; case-id as printed in the report; plan = default|every|none|<bitmask 0/1 per prefix point>)
 //!        c14 types                                                       (type names relocated)
 extern crate iceoryx2_bb_loggers;
 
@@ -224,14 +224,15 @@ fn supervised<S: Subject>(a: &Args) -> i32 {
     0
 }
 
-fn one<S: Subject>(kind: &str, maxlen: usize, seed: u64, id: &str, plan: &str) -> i32 {
+fn one<S: Subject>(id: &str, plan: &str) -> i32 {
     arena::install_fault_handler(2);
+    // id = exh:<cap>:<len>:<code>  |  rnd:<seed>:<maxops>:<n>
     let f: Vec<&str> = id.split(':').collect();
-    let (cap, ops, dplan) = if kind == "exh" {
+    let (cap, ops, dplan) = if f[0] == "exh" {
         let cap: usize = f[1].parse().unwrap();
         (cap, exh_ops::<S>(cap, f[2].parse().unwrap(), f[3].parse().unwrap()), Plan::Every)
     } else {
-        rnd_case::<S>(seed, maxlen, f[3].parse().unwrap())
+        rnd_case::<S>(f[1].parse().unwrap(), f[2].parse().unwrap(), f[3].parse().unwrap())
     };
     let plan = if plan == "default" { dplan } else { Plan::parse(plan) };
     let mut ar = Arena::new(S::block_len(cap), S::ALIGN);
@@ -285,11 +286,12 @@ fn main() {
         for s in SUBJECTS { subjects!(types_of, s, ); }
         return;
     }
-    if a.len() >= 8 && a[1] == "one" {
-        let rc = subjects!(one, a[2].as_str(), a[3].as_str(), a[4].parse().unwrap(), a[5].parse().unwrap(), a[6].as_str(), a[7].as_str());
+    if a.len() >= 4 && a[1] == "one" {
+        let plan = a.get(4).map(|s| s.as_str()).unwrap_or("default");
+        let rc = subjects!(one, a[2].as_str(), a[3].as_str(), plan);
         std::process::exit(rc);
     }
-    if a.len() < 9 { eprintln!("usage: c14 exh|rnd <subject> <maxlen> <shard> <nshards> <seed> <ncases> <report-file> | c14 one <subject> exh|rnd <maxlen> <seed> <case-id> <plan> | c14 types"); std::process::exit(2); }
+    if a.len() < 9 { eprintln!("usage: c14 exh|rnd <subject> <maxlen> <shard> <nshards> <seed> <ncases> <report-file> | c14 one <subject> <case-id> [plan] | c14 types"); std::process::exit(2); }
     let args = Args { mode: a[1].clone(), maxlen: a[3].parse().unwrap(), shard: a[4].parse().unwrap(), nshards: a[5].parse().unwrap(),
         seed: a[6].parse().unwrap(), ncases: a[7].parse().unwrap(), report: a[8].clone() };
     let rc = subjects!(supervised, a[2].as_str(), &args);
